@@ -122,7 +122,7 @@ def direct_once(early, ops, chooser):
     evs = [
         EV(0, 9, 60.0, "nowhere", "ev0", Battery(100.0, 0.0, 7.0)),
         EV(0, 9, 0.4, "S0", "ev1", Battery(10.0, 5.0, 7.0)),  # met after one period at 32 A
-        EV(0, 9, 60.0, "S1", "ev2", Battery(100.0, 0.0, 7.0)),
+        EV(0, 9, 0.0005, "S1", "ev2", Battery(100.0, 0.0, 7.0)),  # asks for half a watt-hour: 'satisfied' from the start
     ]
     st, wait, gone, arrived = {"S0": None}, [], set(), set()
     never = 0
